@@ -1,7 +1,7 @@
 //! `tbh run`: one whole-world run of `torrent_bootstrap::start()` under the fs controller.
 //!
 //!   tbh run --export <dir> [--scan <dir>]... [--torrent <file>]... [--threads n] [--resize]
-//!           [--fault i]... [--crash k,j] [--sched seed]
+//!           [--fault i]... [--crash k,j] [--partial k,j] [--sched seed | --sched-fs seed]
 //!
 //! The world (directories, files, hard links, .torrent files) is laid out on disk by the driver beforehand.
 //! stdout carries the tool's own progress lines, then the controller's log (`LOG ...`), the load results
@@ -21,6 +21,7 @@ pub fn main(args: &[String]) -> i32 {
     let mut resize = false;
     let mut config = ctl::Config::default();
     let mut sched_seed: Option<u64> = None;
+    let mut sched_fs_seed: Option<u64> = None;
     let mut i = 0;
     while i < args.len() {
         match args[i].as_str() {
@@ -38,6 +39,7 @@ pub fn main(args: &[String]) -> i32 {
                 i += 2;
             }
             "--sched" => { sched_seed = Some(args[i + 1].parse().unwrap()); i += 2; }
+            "--sched-fs" => { sched_fs_seed = Some(args[i + 1].parse().unwrap()); i += 2; }
             "--crash" => {
                 let mut it = args[i + 1].split(',');
                 let k: usize = it.next().unwrap().parse().unwrap();
@@ -72,6 +74,10 @@ pub fn main(args: &[String]) -> i32 {
     if let Some(seed) = sched_seed {
         // deterministic scheduling of the executor: one worker runs at a time, decisions are logged
         torrent_bootstrap::verif_shim::sync::sched::install(seed);
+    }
+    if let Some(seed) = sched_fs_seed {
+        // as above, and file operations, per-file write locks and the counter lock are scheduling points too
+        torrent_bootstrap::verif_shim::sync::sched::install_fs(seed);
     }
     std::panic::set_hook(Box::new(|info| { eprintln!("PANIC {}", info); }));
     let result = catch_unwind(AssertUnwindSafe(|| torrent_bootstrap::start(options)));
